@@ -23,6 +23,7 @@ import (
 
 	"verifmon/internal/cases"
 	"verifmon/internal/cli"
+	"verifmon/internal/evid"
 	"verifmon/internal/gen"
 	"verifmon/internal/proc"
 	"verifmon/internal/ref"
@@ -72,8 +73,10 @@ type request struct {
 	class  string
 	method string
 	body   []byte
-	raw    string // "", "short-body" (Content-Length larger than the body, then half-close), "bad-chunk", "slow-body"
-	pause  int    // slow-body: milliseconds between the two body segments
+	raw    string        // "", "short-body" (Content-Length larger than the body, then half-close), "bad-chunk", "slow-body"
+	pause  int           // slow-body: milliseconds between the two body segments
+	gate   chan struct{} // slow-body: if set, the second segment is sent when the gate is closed (instead of after pause)
+	half   chan struct{} // slow-body with gate: closed by the sender once the first segment is on the wire
 	expect string
 	hash   *big.Int // for expectValid / expectLenient
 	id     int
@@ -205,7 +208,15 @@ func sendRaw(addr string, rq *request, watchdog time.Duration) (int, []byte, err
 		if _, err := conn.Write(append([]byte(head), rq.body[:cut]...)); err != nil {
 			return 0, nil, err
 		}
-		time.Sleep(time.Duration(rq.pause) * time.Millisecond)
+		if rq.gate != nil {
+			close(rq.half)
+			select {
+			case <-rq.gate:
+			case <-time.After(watchdog):
+			}
+		} else {
+			time.Sleep(time.Duration(rq.pause) * time.Millisecond)
+		}
 		if _, err := conn.Write(rq.body[cut:]); err != nil {
 			return 0, nil, err
 		}
@@ -651,6 +662,59 @@ func scrapeMetrics(addr string) scrape {
 	}
 	s.totals, s.gauge, s.other = ref.RequestTotals(samples, "/prove")
 	return s
+}
+
+// pendingUpload decides "a request is answered on its own, whatever another client is doing": client A has sent the
+// headers and the first half of a valid body and is INSIDE the handler (confirmed through the in-flight gauge); while
+// A's upload is pending, a valid, an unsatisfiable and a malformed request are sent and must all be answered; only then
+// does A deliver the rest of its body, and must get its proof. The order is causal, not timed: A does not continue
+// before the others have returned (or hit their watchdog, which is the violation).
+func pendingUpload(o *cli.Opts, run *evid.Run, ks *keyset, srv *proc.Server, key string) {
+	if !run.Wants(key) {
+		return
+	}
+	r := gen.RNG(o.Seed, key)
+	a := validRequest(r, ks)
+	a.raw, a.gate, a.half, a.class = "slow-body", make(chan struct{}), make(chan struct{}), "valid/upload-pending"
+	var ars response
+	adone := make(chan struct{})
+	go func() { ars = send(srv.ProverAddr, a, 20*time.Minute); close(adone) }()
+	select {
+	case <-a.half:
+	case <-adone:
+	}
+	if !waitInFlight(srv.MetricsAddr, 1, 60*time.Second) {
+		run.Inconclusive(key + ": the pending upload never showed in the in-flight gauge")
+		close(a.gate)
+		<-adone
+		return
+	}
+	others := []*request{validRequest(r, ks), invalidBatchRequest(r, ks), malformedRequest(r, ks), methodRequest(r, ks)}
+	res := make([]response, len(others))
+	var wg sync.WaitGroup
+	for i := range others {
+		i := i
+		if others[i].raw != "" {
+			others[i] = methodRequest(r, ks)
+		}
+		wg.Add(1)
+		go func() { defer wg.Done(); res[i] = send(srv.ProverAddr, others[i], 3*time.Minute) }()
+	}
+	wg.Wait()
+	for i, rq := range others {
+		p := judgeResponse(ks, rq, res[i])
+		if p != "" {
+			run.Violate(fmt.Sprintf("%s/other%d/%s", key, i, rq.class), fmt.Sprintf("%s request (%s) sent while ANOTHER client's upload was still pending: %s", ks.mode, rq.class, p), map[string]any{"request_body": truncate(string(rq.body), 1500)})
+		}
+		run.Case(ks.mode+"/while-upload-pending", true, key+rq.method+string(rq.body), p == "" && res[i].status == 200, map[string]any{"class": rq.class, "status": res[i].status, "latency_ms": (res[i].ret - res[i].call) / 1e6})
+	}
+	close(a.gate)
+	<-adone
+	if p := judgeResponse(ks, a, ars); p != "" {
+		run.Violate(key+"/uploader", fmt.Sprintf("%s request whose upload was pending while others were served: %s", ks.mode, p), nil)
+	}
+	run.Case(ks.mode+"/upload-pending", true, key+string(a.body), ars.status == 200, map[string]any{"status": ars.status})
+	run.Add("pending_upload_rounds", 1)
 }
 
 // waitInFlight polls the in-flight gauge until it equals k (a logical condition; the deadline is a watchdog).
